@@ -5,6 +5,7 @@ import (
 	"go/ast"
 	"go/token"
 	"go/types"
+	"golang.org/x/tools/go/cfg"
 	"regexp"
 	"strconv"
 
@@ -857,13 +858,101 @@ func ruleBodyTerminates() check.Rule {
 	}
 }
 
+// reachableAfter: some CFG path leads from just after node `from` to node `to` inside body.
+func reachableAfter(body *ast.BlockStmt, from, to ast.Node) bool {
+	g := cfg.New(body, func(*ast.CallExpr) bool { return true })
+	locate := func(n ast.Node) (*cfg.Block, int) {
+		var tb *cfg.Block
+		ti := -1
+		best := token.Pos(-1)
+		for _, b := range g.Blocks {
+			for i, nd := range b.Nodes {
+				if nd.Pos() <= n.Pos() && n.End() <= nd.End() {
+					if span := nd.End() - nd.Pos(); best < 0 || span < best {
+						best, tb, ti = span, b, i
+					}
+				}
+			}
+		}
+		return tb, ti
+	}
+	fb, fi := locate(from)
+	tb, ti := locate(to)
+	if fb == nil || tb == nil {
+		return false
+	}
+	if fb == tb && ti > fi {
+		return true
+	}
+	seen := map[int32]bool{}
+	found := false
+	var dfs func(b *cfg.Block)
+	dfs = func(b *cfg.Block) {
+		if found || seen[b.Index] {
+			return
+		}
+		seen[b.Index] = true
+		if b == tb {
+			found = true
+			return
+		}
+		for _, sc := range b.Succs {
+			dfs(sc)
+		}
+	}
+	for _, sc := range fb.Succs {
+		dfs(sc)
+	}
+	return found
+}
+
+// LATE-EMISSION: an operator does not go on notifying after its own terminal notification.
+func ruleLateEmission() check.Rule {
+	return check.Rule{
+		Name: "LATE-EMISSION",
+		Doc:  "inside one invocation of a function of an operator, no notification to the destination is reachable after a terminal notification to the destination sent earlier in the same invocation (a missing return after `Next(x); Complete()`): such notifications are dropped by the subscriber, but they are the operator breaking the notification grammar itself, and every one is surfaced to the dropped-notification hook as if a producer had misbehaved",
+		Run: func(c *check.Ctx) {
+			m := c.M
+			for _, sc := range m.SCs {
+				armed := c.Armed(sc)
+				cnt := 0
+				for _, t := range sc.Emits {
+					if !t.ToDest || t.Kind == model.EmitNext || t.Forwarder || t.Deferred {
+						continue
+					}
+					fn := innermostFunc(m, t.Pkg, t.Node)
+					body := funcBody(fn)
+					if body == nil {
+						continue
+					}
+					for _, e := range sc.Emits {
+						if e == t || !e.ToDest || e.Forwarder || e.Deferred || innermostFunc(m, e.Pkg, e.Node) != fn {
+							continue
+						}
+						if e.InLoop || t.InLoop {
+							continue // another iteration is another story (guards are value level)
+						}
+						if reachableAfter(body, t.Node, e.Node) {
+							cnt++
+							c.Report(armed, fmt.Sprintf("%s/%s/late-emission#%d", sc, model.CtxKey(e.Ctx, e.Slot), cnt), e.Pos, "this %s notification can be reached after the %s notification at %s in the same invocation (no return in between): the operator notifies after its own terminal", model.SlotNames[e.Kind], model.SlotNames[t.Kind], c.Prog.Rel(t.Pos))
+						}
+					}
+				}
+				if cnt == 0 && armed {
+					c.OK(sc.String()+"/late-emission", sc.Lit.Pos(), "no notification is reachable after a terminal one within an invocation")
+				}
+			}
+		},
+	}
+}
+
 func C04() *check.Property {
 	return &check.Property{
 		ID:       "C04",
 		Title:    "Each operator computes its documented function of the input sequence",
 		Patterns: cat(CorePatterns, PluginPkgs, []string{PromPkg}, RatePkgs),
 		Scope:    []string{ro},
-		Rules:    []check.Rule{ruleAdapter(), ruleAlias(), rulePipe(), ruleNoPostDeliveryMutation(), ruleDeadEmission(), ruleStateLevel(), ruleTerminalPropagation(), ruleObservableParamUsed(), ruleContextlessDelegates(), ruleBodyTerminates()},
+		Rules:    []check.Rule{ruleAdapter(), ruleAlias(), rulePipe(), ruleNoPostDeliveryMutation(), ruleDeadEmission(), ruleStateLevel(), ruleTerminalPropagation(), ruleObservableParamUsed(), ruleContextlessDelegates(), ruleBodyTerminates(), ruleLateEmission()},
 		Explanation: "Narrow structural claim. The values each operator computes are NOT decided (no executable specification of ~150 operators is derivable from the source). Four clauses of the property are visible in the code's shape and are decided: " +
 			"(ADAPTER) plain / indexed / context-aware variants that delegate through a literal are pure adapters — user function called once, only the adapter's own parameters passed, the right context returned — hence observationally identical to the base form; " +
 			"(ALIAS) aliases forward every parameter exactly once; (PIPE) the 50 typed PipeN/PipeOpN apply their operators in order, so a chain is the composition of its parts; " +
